@@ -495,7 +495,12 @@ impl<const N: usize> RealSsUdpServer for SsUdpServer<N> {
     }
     fn encode(&self, data: &[u8], from: &Address, client_session_id: u64, server_session_id: u64, packet_id: u64, user: Option<&str>, dst: &mut BytesMut) -> Result<()> {
         let user = match user {
-            Some(n) => Some(Arc::new(self.um.users_iter().find(|u| u.name == n).ok_or(anyhow!("no such user"))?.clone())),
+            // the manager's own Arc: the cipher cache of /repo is keyed by the *address* of the key, so the harness must
+            // hand over the same allocation the real server would (a fresh clone would manufacture address reuse)
+            Some(n) => {
+                let h = self.um.users_iter().find(|u| u.name == n).ok_or(anyhow!("no such user"))?.identity_hash();
+                self.um.clone_user_by_hash(&h)
+            }
             None => None,
         };
         let s = ssudp::Session::new(client_session_id, server_session_id, packet_id, user);
